@@ -10,7 +10,7 @@
 //!   's' [1]+bytes | [0]   one per element yielded by args(): Ok(str) / Err
 //!   'm' u64   number of elements args() yielded
 //!   'i' N x (u8 op, u32le k, u32le result): the iterators used through other entry points of the Iterator
-//!             protocol than a plain `next()` walk. op 0 args_os().nth(k), 1 args_os().skip(k).last(),
+//!             protocol than a plain `next()` walk. op 0 args_os().nth(k), 1 args_os().skip(k).last(), (5..9: a begun walk continued with nth / skip / step_by)
 //!             2 k x next() then last(), 3 k x next() then count(), 4 args_os().last();
 //!             ops 16..20 the same for args(). result = index of the yielded element among the
 //!             elements of the plain walk (by address), 0xffff_ffff for None, 0xffff_fffe for an
@@ -173,6 +173,37 @@ pub fn main() -> i32 {
                 let _ = it.next();
             }
             put(19, k, it.count() as u32);
+            // a walk that was begun, continued with nth / skip / step_by
+            let mut it = tiny_std::env::args_os();
+            let _ = it.next();
+            put(5, k, idx_os(it.nth(k)));
+            let mut it = tiny_std::env::args_os();
+            for _ in 0..k {
+                let _ = it.next();
+            }
+            put(6, k, idx_os(it.nth(1)));
+            let mut it = tiny_std::env::args_os();
+            let _ = it.next();
+            put(7, k, idx_os(it.skip(k).next()));
+            put(8, k, idx_os(tiny_std::env::args_os().step_by(2).take(argc + 4).nth(k)));
+            let mut it = tiny_std::env::args_os();
+            let _ = it.nth(k);
+            put(9, k, idx_os(it.next()));
+            let mut it = tiny_std::env::args();
+            let _ = it.next();
+            put(21, k, idx(it.nth(k), &mut err_marker));
+            let mut it = tiny_std::env::args();
+            for _ in 0..k {
+                let _ = it.next();
+            }
+            put(22, k, idx(it.nth(1), &mut err_marker));
+            let mut it = tiny_std::env::args();
+            let _ = it.next();
+            put(23, k, idx(it.skip(k).next(), &mut err_marker));
+            put(24, k, idx(tiny_std::env::args().step_by(2).take(argc + 4).nth(k), &mut err_marker));
+            let mut it = tiny_std::env::args();
+            let _ = it.nth(k);
+            put(25, k, idx(it.next(), &mut err_marker));
         }
         rec(b'i', &out);
     }
